@@ -144,6 +144,39 @@ pub fn assertion_pairs_domain() -> Vec<Option<String>> {
     v
 }
 
+/// Texts that "helpful" sanitisation, normalisation or parsing shortcuts tend to damage: white space of
+/// every kind at either end, BOM, NUL and control characters, zero-width and bidi marks, NFC vs NFD, special
+/// case mappings, percent / plus / slash escapes, path and JSON look-alikes. Used as messages, footers,
+/// assertions, claim keys and claim values (all are legal UTF-8 strings; none may be altered or conflated).
+pub fn hostile_texts() -> Vec<String> {
+    [
+        " ", "\n", "\r\n", "\t x \t", " x", "x ", "x\n", "\u{a0}x\u{a0}", "\u{3000}x", "\u{feff}x", "x\u{feff}", "\0", "x\0", "\0x", "a\u{1}b\u{7f}",
+        "\u{200b}x", "x\u{200d}", "\u{202e}abc", "\u{e9}", "e\u{301}", "\u{212b}", "\u{c5}", "\u{130}", "\u{df}", "SS", "ss", "\u{1c5}", "\u{ff21}\u{ff22}", "AB", "ab",
+        "'\"\\", "%00", "%2E", "a+b/c=", "a b", "a%20b", "../x", "x/../y", "null", "true", "0", "-0", "1e3", "[]", "{}", "\"x\"", "\\u0041", "A",
+    ]
+    .iter()
+    .map(|s| s.to_string())
+    .collect()
+}
+
+/// variants that a normalising implementation would conflate with `s`
+pub fn conflation_variants(s: &str) -> Vec<String> {
+    let mut v = vec![s.trim().to_string(), s.trim_end().to_string(), s.trim_start().to_string(), s.to_lowercase(), s.to_uppercase(), s.replace('\0', ""), s.replace('\u{feff}', ""), format!("{} ", s), format!("{}\n", s), format!(" {}", s)];
+    // the NFC / NFD pair and the compatibility pairs present in the list
+    for (a, b) in [("\u{e9}", "e\u{301}"), ("\u{212b}", "\u{c5}"), ("\u{ff21}\u{ff22}", "AB"), ("\u{df}", "ss"), ("%2E", "."), ("a%20b", "a b"), ("\\u0041", "A"), ("-0", "0"), ("1e3", "1000")] {
+        if s == a {
+            v.push(b.to_string());
+        }
+        if s == b {
+            v.push(a.to_string());
+        }
+    }
+    v.retain(|x| x != s);
+    v.sort();
+    v.dedup();
+    v
+}
+
 #[derive(Clone, Debug)]
 pub struct KeyMat {
     pub label: String,
